@@ -59,8 +59,14 @@ def main():
     meta["ran"].append("cd %s && /venv/bin/python demo.py  (clean tree) -> exit %d" % (wt, rc))
     rc, out, err = sh("git apply %s/patch.diff" % dst, wt)
     if rc != 0:
-        print("patch does not apply:", err[-500:])
-        return 1
+        # written against an older HEAD (before a later fix: commit touched the same lines)? try a three-way merge
+        rc, out, err2 = sh("git apply --3way %s/patch.diff" % dst, wt)
+        if rc != 0:
+            print("patch does not apply:", err[-500:])
+            if made_wt:
+                subprocess.run(["git", "-C", "/repo", "worktree", "remove", "--force", wt])
+            return 1
+        meta["applied_with_3way_merge"] = True
     try:
         files = sh("git diff --stat -- adb_shell", wt)[1].strip().splitlines()
         meta["files_changed"] = [l.split("|")[0].strip() for l in files[:-1]]
